@@ -85,7 +85,7 @@ template<class Earth> struct Hist {
   static void current_point(const Poly& p, const char* what) {
     double la, lo; p.CurrentPoint(la, lo);
     bool ok = std::isnan(p._lat1) ? (std::isnan(la) && std::isnan(lo)) :
-      (bits(la) == bits(p._lat1) && (std::isnan(p._lon1) ? std::isnan(lo) : Math::AngNormalize(lo) == Math::AngNormalize(p._lon1)));
+      (bits(la) == bits(p._lat1) && (bits(lo) == bits(p._lon1) || (!std::isfinite(p._lon1) ? !std::isfinite(lo) : Math::AngNormalize(lo) == Math::AngNormalize(p._lon1))));
     if (!ok) badx("current-point", std::string("CurrentPoint after ") + what + " reports (" + g17(la) + ", " + g17(lo) + "), the vertex is (" + g17(p._lat1) + ", " + g17(p._lon1) + ")");
   }
   static std::string state(const Poly& p) {
